@@ -182,12 +182,16 @@ def cls_string_trailing_backslash(text):
     return False
 
 
-CLASSES = [
+# repaired in the crate (fix: commits): no longer excluded from any corpus, kept to tag regression inputs
+FIXED_CLASSES = [
     ("char-blank-or-comma", cls_char_blank_comma),
+    ("char-escaped-quote", lambda text: cls_char_escaped_quote(text)),
+]
+
+CLASSES = [
     ("nested-block-comment", cls_nested_block_comment),
     ("lifetime-unterminated", cls_lifetime_unterminated),
     ("lifetime-exposes-literal", cls_lifetime_exposes_literal),
-    ("char-escaped-quote", cls_char_escaped_quote),
     ("string-trailing-backslash", cls_string_trailing_backslash),
 ]
 
@@ -303,7 +307,7 @@ def ws(rng, nl=True, comment=False):
     return " "
 
 
-TRAILING_COMMA_IN_FILE = [False]   # `file(x,)` followed by `,` is a known-finding class; off in the safe corpus
+TRAILING_COMMA_IN_FILE = [True]    # `file(x,)` followed by `,` was finding file-list-trailing-comma (repaired): regression input
 
 
 def cls_file_list_trailing_comma(attr):
@@ -444,11 +448,11 @@ def noise_item(rng, safe=True):
     if k == 14:
         return "//! inner doc #[ impl {" if False else "// plain // nested line comment /* not open"
     if k == 15:
-        return "fn chars%d() -> [char; 3] { ['a', '\\'', 'b'] }" % rng.randrange(99) if not safe else "fn chars%d() -> [char; 2] { ['a' , 'b' ] }" % rng.randrange(99)
+        return "fn chars%d() -> [char; 4] { ['a', '\\'', ',', 'b'] }" % rng.randrange(99)
     if k == 16:
         return "fn lbl%d() { 'outer: loop { break 'outer; } }" % rng.randrange(99) if not safe else "fn lbl%d() { 'outer: loop { break 'outer ; } }" % rng.randrange(99)
     if k == 17:
-        return "const SP%d: char = ' ';" % rng.randrange(99) if not safe else "const TAB%d: char = '\\t';" % rng.randrange(99)
+        return rng.choice(["const SP%d: char = ' ';", "const CM%d: char = ',';", "const TAB%d: char = '\\t';", "const Q%d: char = '\\'';"]) % rng.randrange(99)
     if k == 18:
         return "/* outer /* inner */ " + la + " */" if not safe else "/* outer */ /* second */"
     if k == 19:
@@ -464,7 +468,8 @@ def gen_impl_text(rng, name, methods):
     for m in methods:
         body = rng.choice([
             "self.0 += 1;", 'let _s = "}"; self.0 -= 1;', "let _c = '{'; self.0 = 0; /* } */", "/* { */ self.0 = 2;",
-            'let _r = r#" " } "#; self.0 = 3;', "let _l: Option<&'static str> = None; self.0 = 4;", "if self.0 > 0 { self.0 = 1; } else { self.0 = 2; }"])
+            'let _r = r#" " } "#; self.0 = 3;', "let _l: Option<&'static str> = None; self.0 = 4;", "if self.0 > 0 { self.0 = 1; } else { self.0 = 2; }",
+            "let _b = ' '; let _q = '\\''; self.0 = 5;", "let _m = [',', '}']; self.0 = 6;"])
         if rng.random() < 0.5:
             lines.append("    pub fn %s(&mut self) { %s }" % (m, body))
         else:
@@ -493,7 +498,7 @@ def gen_file_case(rng, path, safe=True):
     inner = render_meta(rng, (mac_path, "list", args), nl=multi, comment=multi and rng.random() < 0.3)
     attr = "#[" + inner + "]"
     impl_txt = gen_impl_text(rng, "MyActor", methods)
-    sep = rng.choice(["\n", "\n", "\n", " ", "\n    ", "\n\n"])
+    sep = rng.choice(["\n", "\n", "\n", " ", "\n    ", "\n\n", ""])
     others = []
     if rng.random() < 0.25:
         others.append("#[allow(dead_code)]")
@@ -523,7 +528,7 @@ def gen_file_case(rng, path, safe=True):
 
 # --- scanner lines
 def gen_fragment(rng, safe=True):
-    k = rng.randrange(24 if safe else 32)
+    k = rng.randrange(27 if safe else 32)
     w = rng.choice(["foo", "x", "impl A", "#[actor(edit(file))]", "{", "}", "let a = 1;", "[1, 2]", "fn f()", "b", "r", "br", "#"])
     if k < 5:
         return w
@@ -565,13 +570,14 @@ def gen_fragment(rng, safe=True):
         return "'b: 'a, "
     if k == 23:
         return "   "
-    # hazards (model and code must still agree)
+    # formerly non-terminating (repaired): ordinary fragments now
     if k == 24:
         return "' '"
     if k == 25:
         return "','"
     if k == 26:
         return "'\\''"
+    # hazards of the remaining known classes (model and code must still agree)
     if k == 27:
         return "Foo<'a>"
     if k == 28:
